@@ -47,7 +47,9 @@ RULE = ("Runs: the runs of C01's enumeration (feature trees x step-outcome devia
         "one document of its own and the class-name part of testsuite@name / testcase@classname is neither empty nor "
         "'None'. Oracle (per reported feature): the TESTS-*.xml file exists "
         "(unless the feature is skipped and hidden) and parses with expat; its testcase entries are the feature's "
-        "scenarios in order (outline rows included, skipped ones iff shown) with the model's final status and the "
+        "scenarios in order (outline rows included, skipped ones iff shown) with the final status of the Scenario object "
+        "that was executed (recorded by a formatter during the run; a post-run model that holds other objects/statuses "
+        "is reported as model-after-run-differs-from-execution) and the "
         "matching child class (none / failure / error / skipped); tests, failures, errors, skipped attributes equal the "
         "numbers of testcase / failure / error / skipped entries; every failed or errored scenario's failure/error entry "
         "names the first non-passing step or the raising hook; nothing escapes run(). Non-trivial = distinct run whose "
@@ -160,6 +162,8 @@ H_OUTLINE = u"""Feature: Feat a%F%b
   @ot%T%x
   Scenario Outline: Out a%S%b
     Given step 2 <o> a%P%b
+    Examples: NoRowsYet a%S%b
+      | o |
     @et%T%x
     Examples: E a%S%b
       | o |
@@ -172,6 +176,8 @@ H_OUTLINE = u"""Feature: Feat a%F%b
     Examples: More
       | o |
       | error |
+    Examples: NoRows a%S%b
+      | o |
   Rule: R a%S%b
     Background:
       Given step 3 pass
@@ -286,6 +292,7 @@ def run_text(texts, args, assign=(), feat_hook=None):
     old_out, old_err = sys.stdout, sys.stderr
     sys.stdout, sys.stderr = io.StringIO(), io.StringIO()
     escaped, feats, config, raised = None, [], None, []
+    rec = ExecRecorder()
     try:
         config = m["Configuration"](list(args), load_config=False)
         config.base_dir = os.getcwd()
@@ -345,7 +352,7 @@ def run_text(texts, args, assign=(), feat_hook=None):
             hook.__name__ = name
             return hook
         runner.hooks = {n: make_hook(n) for n in HOOK_NAMES}
-        runner.formatters = []
+        runner.formatters = [rec]
         try:
             runner.run()
         except BaseException as e:      # noqa - property: nothing escapes run()
@@ -354,7 +361,74 @@ def run_text(texts, args, assign=(), feat_hook=None):
         sys.stdout, sys.stderr = old_out, old_err
         root.handlers[:] = saved_handlers
         root.setLevel(saved_level)
-    return escaped, feats, config, raised
+    return escaped, feats, config, raised, rec
+
+
+# ------------------------------------------------------------------ execution-time truth
+class ExecRecorder(object):
+    """formatter (duck-typed) that keeps the Scenario objects the runner actually executed / announced, in order.
+    Their final status is the execution-time truth: walking the model after the run may meet other objects
+    (ScenarioOutline.scenarios can rebuild its row scenarios) than the ones that ran."""
+    name = "c16.exec"
+
+    def __init__(self):
+        self.scenarios = []
+        self._uri = None
+
+    def uri(self, uri):
+        self._uri = uri
+
+    def scenario(self, scenario):
+        self.scenarios.append(scenario)
+
+    def feature(self, feature):
+        pass
+    rule = background = step = match = result = feature
+
+    def eof(self):
+        pass
+    close = eof
+
+
+def scenario_key(s):
+    return (s.location.filename, s.location.line, s.name)
+
+
+def step_statuses(s):
+    return tuple(x.status.name for x in s.all_steps)
+
+
+def execution_truth(v, feats, rec, info):
+    """info["truth"] = {feature index: the feature's scenarios with every executed one taken from the recorder};
+    a post-run model whose scenario differs from the executed one is reported with its own clause"""
+    executed = {}
+    for s in rec.scenarios:
+        executed[scenario_key(s)] = s          # a re-run (not in this check) would keep the last execution
+    truth, used = {}, set()
+    for fi, feature in enumerate(feats):
+        lst = []
+        for s in expected_scenarios(feature):
+            e = executed.get(scenario_key(s))
+            if e is None:
+                lst.append(s)           # never announced: not selected / never started - nothing was executed
+                continue
+            used.add(scenario_key(s))
+            if e is not s and (e.status.name != s.status.name or step_statuses(e) != step_statuses(s)):
+                v.append(({"subcheck": "model", "clause": "model-after-run-differs-from-execution",
+                           "executed": e.status.name, "after_run": s.status.name},
+                          "scenario %r (%s:%s) finished %s %s when it was executed, but the model walked after the run "
+                          "holds another object with %s %s" % (e.name, s.location.filename, s.location.line,
+                                                               e.status.name, step_statuses(e), s.status.name,
+                                                               step_statuses(s))))
+            lst.append(e)
+        truth[fi] = lst
+    lost = [k for k in executed if k not in used]
+    if lost:
+        v.append(({"subcheck": "model", "clause": "model-after-run-differs-from-execution",
+                   "executed": "+".join(sorted(set(executed[k].status.name for k in lost))), "after_run": "absent"},
+                  "executed scenarios %s are not in the model walked after the run" % (lost,)))
+    info["truth"] = truth
+    info["n_executed"] = len(executed)
 
 
 # ------------------------------------------------------------------ the oracle
@@ -477,16 +551,18 @@ def check_reports(v, feats, outdir, shown, info, filemap=None):
                       "%s root element is %s" % (fname, suite.tagName)))
             continue
         cases = children(suite, "testcase")
-        want = [s for s in expected_scenarios(feature) if s.status.name != "skipped" or shown]
+        all_scenarios = info["truth"][fi] if "truth" in info else expected_scenarios(feature)
+        want = [s for s in all_scenarios if s.status.name != "skipped" or shown]
         # -- test cases == the feature's scenarios, each with its final status
         got_ids = [(name_key(c.getAttribute("name"), hostile), c.getAttribute("status")) for c in cases]
         want_ids = [(name_key(s.name, hostile), s.status.name) for s in want]
         if got_ids != want_ids:
             gs, ws = [g[0] for g in got_ids], [w[0] for w in want_ids]
             if gs == ws:
-                bad = sorted(set(w[1] for g, w in zip(got_ids, want_ids) if g != w))
-                v.append(({"subcheck": "testcases", "clause": "status-attribute", "status": "+".join(bad)},
-                          "%s testcase status attributes %s, model says %s" % (fname, got_ids, want_ids)))
+                g1, w1 = next((g, w) for g, w in zip(got_ids, want_ids) if g != w)
+                v.append(({"subcheck": "testcases", "clause": "status-attribute", "expected": w1[1], "got": g1[1]},
+                          "%s testcase status attributes %s, the executed scenarios finished %s"
+                          % (fname, got_ids, want_ids)))
             else:
                 extra = [g for g in got_ids if g[0] not in ws]
                 missing = [w for w in want_ids if w[0] not in gs]
@@ -656,9 +732,32 @@ def finish(v, summary, case, nontrivial, marks=()):
         else:
             classes.add(item[1])
     interesting = nontrivial or any(c for c in classes if not isinstance(c, tuple) or
-                                    (c[0] not in ("seen", "addressed") and c[1:] != (False, False, False)))
+                                    (c[0] not in ("seen", "addressed", "rowless-block") and c[1:] != (False, False, False)))
     return {"v": v, "dg": flat, "out": tuple(sorted(map(repr, classes))), "n": 1,
             "nt": digest(case) if interesting else None}
+
+
+def rowless_marks(prog):
+    """vacuity evidence: the program holds an outline with a heading-only Examples block before / after a block with
+    rows one of which does not pass"""
+    marks = []
+
+    def walk(node):
+        for it in node[3]:
+            if it[0] == "R":
+                walk(it)
+            elif it[0] == "O" and len(it[3]) > 1:
+                sizes = [len(rows) for _, rows in it[3]]
+                bad = any(o != "pass" for _, rows in it[3] for row in rows for o in row)
+                if bad and 0 in sizes and max(sizes) > 0:
+                    first_rows = min(i for i, n in enumerate(sizes) if n)
+                    if sizes.index(0) < first_rows:
+                        marks.append(("rowless-block", "before"))
+                    if len(sizes) - 1 - sizes[::-1].index(0) > first_rows:
+                        marks.append(("rowless-block", "after"))
+    for f in prog:
+        walk(f)
+    return marks
 
 
 def run_plain(case):
@@ -681,8 +780,9 @@ def run_plain(case):
             other.junit_directory = d2
             return list(config.reporters) + [JUnitReporter(other)]
 
+        rec = ExecRecorder()
         obs = harness.run_case(prog, cfgd, faults=faults, cleanups=cleanups, hooks=hooks, reporters=reporters,
-                               keep_model=True)
+                               keep_model=True, formatters=lambda config, o2p: [rec])
         v = []
         feats, config = obs["model"][0], obs["model"][4]
         if not any(type(r).__name__ == "JUnitReporter" for r in config.reporters):
@@ -694,13 +794,14 @@ def run_plain(case):
         elif faults:
             trig = "hook-fault:" + "+".join(sorted(set(raised)))
         info = {"raised": raised, "trigger": trig}
+        execution_truth(v, feats, rec, info)
         if obs["escaped"]:
             info["escaped"] = True
             escaped_violation(v, (obs["escaped"], obs.get("escaped_msg")), info, feats)
         summary = check_reports(v, feats, d, bool(show), info)
         summary += check_reports(v, feats, d2, not show, info)
         summary.append(("escaped", obs["escaped"]))
-        return finish(v, summary, case, False)
+        return finish(v, summary, case, False, rowless_marks(prog))
     finally:
         shutil.rmtree(os.path.dirname(d), ignore_errors=True)
 
@@ -723,12 +824,13 @@ def run_hostile(case):
                     always = val
         text = render_hostile(shape, assign)
         second = u"Feature: Second\n  Scenario: Tail\n    Given step 1 pass\n"
-        escaped, feats, config, raised = run_text([text, second], args, assign, feat_hook)
+        escaped, feats, config, raised, rec = run_text([text, second], args, assign, feat_hook)
         v = []
         info = {"hostile": True, "atoms": tuple(assign), "raised": raised,
                 "roundtrip": all(ATOM[a][2] in ROUNDTRIP_CLASSES for _, a in assign)}
         if bits is not None:
             info["trigger"] = "switches"
+        execution_truth(v, feats, rec, info)
         if escaped:
             info["escaped"] = True
             escaped_violation(v, escaped, info, feats)
@@ -879,6 +981,11 @@ def run_addressed(case):
             def load_step_definitions(self, extra_step_paths=None):
                 pass        # no step modules on disk: the process-wide registry stays untouched
 
+            def run_model(self, features=None):
+                self.formatters.append(rec)
+                return super(FileRunner, self).run_model(features)
+
+        rec = ExecRecorder()
         runner = FileRunner(config)
         runner.step_registry = reg
         try:
@@ -888,6 +995,7 @@ def run_addressed(case):
         feats = list(runner.features)
         info = {"addressing": mode, "trigger": "addressing:" + mode, "paths": paths, "escaped": bool(escaped),
                 "addr_of": {fi: address_class(f.filename, paths, d) for fi, f in enumerate(feats)}}
+        execution_truth(v, feats, rec, info)
         if escaped:
             escaped_violation(v, escaped, info, feats)
         outdir = os.path.join(d, "reports")
@@ -1001,6 +1109,9 @@ def run(ctx):
     flat = " ".join(" ".join(out) for out in ctx.outcomes)
     for st in ("passed", "failed", "error", "hook_error", "skipped", "untested"):
         ctx.guard("('%s'," % st in flat, "some reported test case has final status %s" % st)
+    for where in ("before", "after"):
+        ctx.guard("('rowless-block', '%s')" % where in flat,
+                  "a run with a heading-only Examples block %s a block with a non-passing row" % where)
     for mode, _ in ADDR_MODES:
         ctx.guard("('addressed', '%s', " % mode in flat and "('addressed', '%s', 0" % mode not in flat,
                   "addressing mode %s ran at least one feature" % mode)
